@@ -33,7 +33,7 @@ def leaf(val):
     if isinstance(val, (Entity, PropertyGroup)):
         return f"<{type(val).__name__} {val.uid}>"
     if isinstance(val, Workspace):
-        return "<Workspace>"
+        return "<Workspace in memory>" if not isinstance(val.h5file, (str, bytes)) and not hasattr(val.h5file, "name") else f"<Workspace {getattr(val.h5file, 'name', val.h5file)}>"
     if isinstance(val, uuid.UUID):
         return f"<uuid {val}>"
     if isinstance(val, float) and val != val:
@@ -158,6 +158,7 @@ class InputFileScenario(BaseScenario):
         pg_a = pa.find_or_create_property_group(name="pgA", property_group_type="Multi-element", properties=[a1.uid, a2.uid])
         pg_v = pa.find_or_create_property_group(name="pgV", property_group_type="3D vector", properties=[a1.uid, a2.uid])
         pg_b = pb.find_or_create_property_group(name="pgB", property_group_type="Multi-element", properties=[b1.uid])
+        env["ws2"] = Workspace()      # another (in-memory) workspace a caller may try to switch the form to
         env.update({"A": pa, "B": pb, "C": cu, "a1": a1, "a2": a2, "a3": a3, "b1": b1, "pgA": pg_a, "pgV": pg_v, "pgB": pg_b,
                     "ghost": uuid.UUID(int=r.getrandbits(128), version=4)})
         return env
@@ -262,6 +263,7 @@ class InputFileScenario(BaseScenario):
             "g2": [6, None, "w"],
             "one_a": ["p", None, 5],
             "one_b": ["q", None, 5],
+            "geoh5": [env["ws"], env["ws2"], env["ws2"], None, "not a workspace"],
             "title": ["t2", None, 5],
             "run_command": ["cmd", None, 3],
             "conda_environment_boolean": [True, False, "no"],
@@ -454,6 +456,11 @@ class InputFileScenario(BaseScenario):
                 ver_v = verdict(call_v)
         ver_t = verdict(call_t) if call_t is not None else None
         ver_a = verdict(call_a)
+        if kind == "set" and key == "geoh5":
+            # switching an InputFile to another workspace is refused by design once one is set ("create a new InputFile"): a rule about
+            # the object's history, not about the value -- only the clause "a rejected value leaves data and form unchanged" is judged
+            ver_v = None
+            ver_t = ver_a
         if ver_v is not None and (ver_a[0] == "accept") != (ver_v[0] == "accept") and not (typeless and "TypeValidationError" in (ver_a[0], ver_v[0])):
             raise Violation("C15", "verdict_differs", f"{what}: the aged object says {ver_a[0]} ({ver_a[1]}); a fresh InputValidation on the same form, asked directly for "
                             f"this key and value, says {ver_v[0]} ({ver_v[1]})",
@@ -557,7 +564,7 @@ def ref_requires(ui, key):
     return own()
 
 
-IF_DOMAIN_KEYS = {"obj2", "s", "i_opt", "f", "flag", "choice", "obj", "dat", "pg", "dv", "dep", "g1", "g2", "one_a", "one_b", "title", "run_command", "conda_environment_boolean"}
+IF_DOMAIN_KEYS = {"geoh5", "obj2", "s", "i_opt", "f", "flag", "choice", "obj", "dat", "pg", "dv", "dep", "g1", "g2", "one_a", "one_b", "title", "run_command", "conda_environment_boolean"}
 
 
 # ================================================================================================ Parameters / forms / pools
